@@ -24,7 +24,7 @@ def cases(tier, seed):
         if 'padding/' in rel and rng.random() < (0.7 if tier == 'quick' else 0.0):
             continue
         out.append({'id': 'fix:' + rel, 'file': {'kind': 'fixture', 'rel': rel}, 'nops': 40, 'cost': 2})
-    reps = 1 if tier == 'quick' else 6
+    reps = 2 if tier == 'quick' else 8
     cap = 800_000 if tier == 'quick' else 5_000_000
     for rep in range(reps):
         for fam, lays in files.LAYOUTS_3D.items():
